@@ -216,7 +216,13 @@ inline SGen valid_setting(Method m, const SOpts &o) {
       if (deployed && coin(2, 3)) { k = 2; n = 16; }
       static const char *nm[] = {"salt0", "saltshort", "salt16", "saltover"};
       cls += std::string("/") + nm[k];
-      s += chars_from(PWSAFE_NODOLLAR, n);
+      if (rk && !deployed && coin(1, 12)) {
+        // a salt that reads like the method's own option field (legal: '=' and digits are salt characters)
+        s += "rounds=" + std::to_string(pick(1, 99999));
+        if (coin()) s += chars_from(PWSAFE_NODOLLAR, (size_t)pick(0, 6));
+        cls += "-optionlike";
+      } else
+        s += chars_from(PWSAFE_NODOLLAR, n);
       if (tk) { s += "$"; s += tail_of(m, tk, true); } else if (coin()) { s += "$"; cls += "/term"; }
       cls += std::string("/") + TAILN[tk];
       break;
